@@ -16,7 +16,7 @@ for d in sorted(glob.glob(os.path.join(root, "seeded", "C*-*")), key=lambda p: (
     name = os.path.basename(d)
     meta = json.load(open(os.path.join(d, "meta.json")))
     r = res.get(name)
-    rnd = 1 if int(name.split("-")[1]) <= 3 else (2 if int(name.split("-")[1]) <= 5 else 3)
+    k_ = int(name.split("-")[1]); rnd = 1 if k_ <= 3 else (2 if k_ <= 5 else (3 if k_ <= 7 else (4 if k_ <= 9 else 5)))
     if r is None:
         out = "(not run)"
     else:
@@ -34,7 +34,7 @@ for d in sorted(glob.glob(os.path.join(root, "seeded", "C*-*")), key=lambda p: (
     rows.append(f"| {name} | {rnd} | {cell(meta.get('title'))} | {cell(meta.get('needs_to_manifest'))} | {cell(out)} |")
 with open(os.path.join(root, "seeded", "INDEX.md"), "w") as f:
     f.write("# Seeded property-breaking changes\n\n"
-            "Written by sub-agents that were given only the property text and a scratch worktree (three rounds; rounds 2 and 3 were told the\n"
+            "Written by sub-agents that were given only the property text and a scratch worktree (five rounds; rounds 2-5 were told the\n"
             "titles of the earlier changes and asked for different kinds). Each was confirmed with tools/seedtest.py (the demo fails with the\n"
             "change and passes without; the 135 tests pass with the change). `caught by` = the first obligation refuted by\n"
             "`check.py <prop> --tier quick` on the changed tree, from the last run of tools/seedall.py (checks as they stand now;\n"
